@@ -33,11 +33,25 @@ func Convert(in interface{}) Object {
 }
 
 func convert(in interface{}) Object {
+	return convertWith(in, false)
+}
+
+// convertData converts the data of one render. Values in it which already are pugjs objects (results of
+// Convert, lists of Objects, ...) belong to the caller: they are copied, so that whatever the template
+// pushes to, assigns into or sorts is an object of this render and never the caller's.
+func convertData(in interface{}) Object {
+	return convertWith(in, true)
+}
+
+func convertWith(in interface{}, detach bool) Object {
 	if in == nil {
 		return Nil{}
 	}
 
 	if in, ok := in.(Object); ok {
+		if detach {
+			return in.copy()
+		}
 		return in
 	}
 
@@ -55,6 +69,9 @@ func convert(in interface{}) Object {
 	}
 
 	if in, ok := val.Interface().(Object); ok {
+		if detach {
+			return in.copy()
+		}
 		return in
 	}
 
@@ -69,7 +86,7 @@ func convert(in interface{}) Object {
 			o:     val.Interface(),
 		}
 		for i := 0; i < val.Len(); i++ {
-			array.items[i] = convert(val.Index(i))
+			array.items[i] = convertWith(val.Index(i), detach)
 		}
 		return array
 
@@ -89,7 +106,7 @@ func convert(in interface{}) Object {
 			if k.Kind() != reflect.String {
 				key = fmt.Sprint(k.Interface())
 			}
-			newMap.items[key] = convert(val.MapIndex(k))
+			newMap.items[key] = convertWith(val.MapIndex(k), detach)
 		}
 
 		if sortable, ok := val.Interface().(sortable); ok {
@@ -104,7 +121,8 @@ func convert(in interface{}) Object {
 
 	case reflect.Struct:
 		newMap := &Map{
-			o: val.Interface(),
+			o:      val.Interface(),
+			detach: detach,
 		}
 		// no item conversion here. It will be done on the fly on first member access
 
@@ -123,7 +141,7 @@ func convert(in interface{}) Object {
 		}
 
 		if val.Type().NumMethod() == 0 {
-			return convert(val.Interface())
+			return convertWith(val.Interface(), detach)
 		}
 
 		newMap := &Map{
@@ -135,7 +153,7 @@ func convert(in interface{}) Object {
 				newMap.items[lowerFirst(val.Type().Method(i).Name)] = convert(val.Method(i))
 			}
 
-			if m, ok := convert(val.Interface()).(*Map); ok {
+			if m, ok := convertWith(val.Interface(), detach).(*Map); ok {
 				m.convert()
 				for k, v := range m.items {
 					newMap.items[k] = v
@@ -168,7 +186,7 @@ func convert(in interface{}) Object {
 
 	case reflect.Ptr:
 		if val.IsValid() && val.Elem().IsValid() {
-			newVal := convert(val.Elem())
+			newVal := convertWith(val.Elem(), detach)
 			if m, ok := newVal.(*Map); ok {
 				for i := 0; i < val.NumMethod(); i++ {
 					m.Assign(lowerFirst(val.Type().Method(i).Name), convert(val.Method(i)))
@@ -386,6 +404,7 @@ func (a *Array) MarshalJSON() ([]byte, error) {
 func (a *Array) copy() Object {
 	c := &Array{
 		items: make([]Object, len(a.items)),
+		o:     a.o,
 	}
 
 	for i, o := range a.items {
@@ -400,6 +419,8 @@ type Map struct {
 	items map[string]Object
 	o     interface{}
 	order []string
+	// detach: the fields of the struct in o are converted like the data of a render (see convertData)
+	detach bool
 }
 
 func (m *Map) convert() {
@@ -422,7 +443,7 @@ func (m *Map) convert() {
 
 	for i := 0; i < val.NumField(); i++ {
 		if val.Field(i).CanInterface() {
-			m.items[lowerFirst(val.Type().Field(i).Name)] = convert(val.Field(i))
+			m.items[lowerFirst(val.Type().Field(i).Name)] = convertWith(val.Field(i), m.detach)
 		}
 	}
 
@@ -606,12 +627,21 @@ func (m *Map) True() bool {
 
 func (m *Map) copy() Object {
 	c := &Map{
-		items: make(map[string]Object, len(m.items)),
-		o:     m.o,
+		o:      m.o,
+		detach: true,
 	}
 
-	for k, v := range m.items {
-		c.items[k] = v.copy()
+	// a struct that is not converted yet stays so: the copy converts its fields itself
+	if m.items != nil {
+		c.items = make(map[string]Object, len(m.items))
+		for k, v := range m.items {
+			c.items[k] = v.copy()
+		}
+	}
+
+	if m.order != nil {
+		c.order = make([]string, len(m.order))
+		copy(c.order, m.order)
 	}
 
 	return c
